@@ -519,6 +519,16 @@ pub fn c05(ix: &Index) -> Vec<Viol> {
             }
         }
     }
+    // what was issued where nothing records (under the scope of an unsampled span in particular)
+    // is delivered nowhere, not even on a record of an enclosing sampled scope
+    for n in &h.dark_names {
+        if n.is_empty() {
+            continue;
+        }
+        if delivered_keys.contains(n.as_str()) || delivered_events.contains(n.as_str()) || ix.by_name.contains_key(n.as_str()) {
+            out.push(v("C05", "non-recording-context-item-delivered", format!("{:?} was issued where nothing records (no scope, or the scope of a span of an unsampled trace) but was delivered", n)));
+        }
+    }
     // mixed-parent spans are delivered exactly in their sampled parents' traces (default config)
     if !h.cancelable {
         for (si, s) in h.spans.iter().enumerate() {
